@@ -24,6 +24,13 @@ class Wrapper:
         self.calls = None
         self.count = 0
         self.budget = BUDGET
+        self.cpu_aborts = 0
+        self.eval_aborts = 0
+        self.cpu_fired = False
+
+    def enough_aborts(self):
+        """this job has already seen calls that do not terminate within the budgets: the verdict is in, stop spending minutes on more"""
+        return self.cpu_aborts >= 2 or self.eval_aborts >= 3
 
     def install(self):
         w = self
@@ -41,6 +48,7 @@ class Wrapper:
                     if len(w.tail) > KEEP_TAIL:
                         w.tail.pop(0)
                 if w.count > w.budget:
+                    w.eval_aborts += 1
                     raise Abort()
             return res
         pv.Pervaporation.get_partial_fluxes_from_permeate_composition = wrapped
@@ -55,6 +63,7 @@ class Wrapper:
         try:
             def on_cpu(signum, frame):
                 self.cpu_fired = True
+                self.cpu_aborts += 1
                 raise Abort()
             signal.signal(signal.SIGVTALRM, on_cpu)
             signal.setitimer(signal.ITIMER_VIRTUAL, CPU_GUARD_S * max(1.0, self.budget / BUDGET))
@@ -74,11 +83,11 @@ class Wrapper:
 def scenario(rng, mix=None, adversarial=False):
     if mix is None:
         mix = gen.some_mixture(rng, p_builtin=0.6)
-    model = rng.choice(["NRTL", "UNIQUAC"])
+    model = gen.tstr(rng, rng.choice(["NRTL", "UNIQUAC"]))
     mode = rng.choice(["vac", "temp", "temp", "temp", "press", "press", "press0"])
     T = gen.as_given(rng, rng.uniform(273.0, 400.0))
     sc = {"mix": mix, "model": model, "mode": mode, "T": T, "xw": gen.fraction(rng, ends=rng.random() < 0.3),
-          "ctype": "weight" if rng.random() < 0.8 else "molar",
+          "ctype": gen.tstr(rng, "weight" if rng.random() < 0.8 else "molar"),
           "P1": gen.logu(rng, 1e-6, 1.0), "P2": gen.logu(rng, 1e-6, 1.0),
           # the library's own default precisions are over-represented: they are what every helper and model passes
           "prec": rng.choice([3e-4, 5e-5, gen.logu(rng, 1e-8, 1e-3), gen.logu(rng, 1e-8, 1e-3)]), "Tperm": None, "pperm": None,
@@ -94,6 +103,16 @@ def scenario(rng, mix=None, adversarial=False):
             sc["Tperm"] = rng.uniform(120.0, T)
     elif mode == "press":
         sc["pperm"] = gen.as_given(rng, rng.uniform(0.0, 100.0) if rng.random() < 0.6 else gen.logu(rng, 1e-9, 100.0))
+        if adversarial or rng.random() < 0.25:
+            # at p* = (P1 pf1 + P2 pf2) / (P1 + P2) the pressure-mode map is an involution (a neutral 2-cycle); close to it the
+            # iteration count grows like 1 / |p / p* - 1|
+            try:
+                pf = pv.get_partial_pressures(float(T), mix, pv.Composition(p=sc["xw"], type=sc["ctype"]), model)
+                pstar = float((sc["P1"] * pf[0] + sc["P2"] * pf[1]) / (sc["P1"] + sc["P2"]))
+                if math.isfinite(pstar) and pstar > 0:
+                    sc["pperm"] = pstar * (1.0 + rng.choice([0.0, 1.0, -1.0]) * gen.logu(rng, 1e-12, 1e-2))
+            except Exception:  # noqa: BLE001
+                pass
     elif mode == "press0":
         sc["pperm"] = 0.0
     return sc
@@ -240,15 +259,50 @@ def record_one(tw, sc, stats, twin=True, budget=None, perv=None):
     return outcome, n
 
 
+def helper_traces(sc, budget=None):
+    """the same question through the two helper entry points (they take the permeances from the membrane): each must return or raise"""
+    w = get_wrapper()
+    mix = sc["mix"]
+    T = float(sc["T"])
+    exps = [pv.IdealExperiment(name="verif", temperature=T, component=c, permeance=pv.Permeance(value=P), activation_energy=0.0)
+            for c, P in ((mix.first_component, sc["P1"]), (mix.second_component, sc["P2"]))]
+    perv = pv.Pervaporation(membrane=pv.Membrane(name="verif", ideal_experiments=pv.IdealExperiments(experiments=exps)), mixture=mix)
+    feed = pv.Composition(p=sc["xw"], type=sc["ctype"])
+    out = []
+    for kind in ("helper_permeate_composition", "helper_separation_factor"):
+        if w.enough_aborts():
+            break
+        w.start(budget)
+        outcome, exc = "return", None
+        try:
+            kw = dict(feed_temperature=T, composition=feed, precision=sc["prec"], permeate_temperature=sc["Tperm"],
+                      permeate_pressure=sc["pperm"], calculation_type=sc["model"])
+            if kind == "helper_permeate_composition":
+                perv.calculate_permeate_composition(**kw)
+            else:
+                perv.calculate_separation_factor(**kw)
+        except Abort:
+            outcome = "abort"
+        except Exception as e:  # noqa: BLE001
+            outcome, exc = "raise", type(e).__name__
+        calls, tail, cnt = w.stop()
+        out.append([{"ev": "Model", "kind": kind, "model": sc["model"], "N": 1, "outcome": outcome, "exc": exc, "n": cnt,
+                     "budget": budget or BUDGET, "mixname": mix.name}])
+    return out
+
+
 def record_job(job):
     """multiprocessing entry: job = (seed, n, adversarial_fraction, budget) -> (traces, stats)"""
     import random
     from .trace import TraceWriter
-    seed, n, adv, budget = job
+    seed, n, adv, budget = job[:4]
+    opts_helpers = len(job) > 4 and job[4]
     rng = random.Random(seed)
     tw = TraceWriter()
     stats = {"nontrivial": set(), "outcomes": {}}
     for _ in range(n):
+        if get_wrapper().enough_aborts():
+            break            # two calls of this job already ran into the CPU-time guard: the verdict is in, do not spend minutes on more
         sc = scenario(rng, adversarial=rng.random() < adv)
         if rng.random() < 0.25:
             # the SAME object solves the SAME state twice: first coarsely, then to a finer precision (each answer must meet its own)
@@ -259,7 +313,10 @@ def record_job(job):
             record_one(tw, sc, stats, budget=budget, perv=perv)
             record_one(tw, fine, stats, budget=budget, perv=perv)
             continue
-        record_one(tw, sc, stats, budget=budget)
+        outcome, _ = record_one(tw, sc, stats, budget=budget)
+        if opts_helpers and (outcome != "return" or rng.random() < 0.1):
+            for t in helper_traces(sc, budget):
+                tw.add(t)
     return tw.traces, stats
 
 
@@ -305,7 +362,11 @@ def replay_job(job):
     stats = {"nontrivial": set(), "outcomes": {}}
     res = []
     for sc in scs:
+        if get_wrapper().enough_aborts():
+            break
         res.append(record_one(tw, sc, stats, twin=False, budget=budget))
+        for t in helper_traces(sc, budget):              # the stuck inputs also through the helper entry points
+            tw.add(t)
     return tw.traces, stats, res
 
 
@@ -319,6 +380,8 @@ def model_job(job):
     w = get_wrapper()
     out = []
     for j in range(n):
+        if w.enough_aborts():
+            break
         u = rng.random()
         kind = rp.KINDS[j % 2] if u < 0.65 else ("curve" if u < 0.8 else rp.KINDS[2 + j % 2])      # all four kinds and the curve
         sc = rp.scenario(rng, kind=kind if kind != "curve" else "ideal_iso", mode="temp")
